@@ -71,23 +71,26 @@ Proof. rewrite <- app_assoc. cbn [app]. apply nth_error_app_len. Qed.
 Definition next_free_of (post : list mp4_atom) : option mp4_atom :=
   match post with q :: _ => if mp4_is_free q then Some q else None | [] => None end.
 
+Definition prev_free_of (pre : list mp4_atom) : option mp4_atom :=
+  match rev pre with p :: _ => if mp4_is_free p then Some p else None | [] => None end.
+
 Lemma find_padding_value meta pre ilst post :
   ma_kids meta = Some (pre ++ ilst :: post) -> ma_name ilst = N_ilst -> Forall (fun x => ma_name x <> N_ilst) pre ->
   mp4_find_padding meta =
-  match rev pre with
-  | p :: _ => if mp4_is_free p then Some p else next_free_of post
-  | [] => next_free_of post
+  match next_free_of post with
+  | Some q => Some q
+  | None => prev_free_of pre
   end.
 Proof.
   intros Hk Hn Hpre. unfold mp4_find_padding. rewrite Hk. rewrite (index_split _ _ _ _ Hn Hpre).
   assert (Hnext : mp4_next_free (pre ++ ilst :: post) (length pre) = next_free_of post).
   { unfold mp4_next_free, next_free_of. rewrite nth_error_app_len1. destruct post; reflexivity. }
-  destruct (rev pre) as [|p l] eqn:Er.
-  - assert (pre = []) by (rewrite <- (rev_involutive pre), Er; reflexivity). subst pre. cbn [length] in *. exact Hnext.
+  rewrite Hnext. destruct (next_free_of post); [reflexivity|].
+  unfold prev_free_of. destruct (rev pre) as [|p l] eqn:Er.
+  - assert (pre = []) by (rewrite <- (rev_involutive pre), Er; reflexivity). subst pre. reflexivity.
   - assert (Ep : pre = rev l ++ [p]) by (rewrite <- (rev_involutive pre), Er; reflexivity).
-    subst pre. rewrite app_length in *. cbn [length] in *.
-    replace (length (rev l) + 1)%nat with (S (length (rev l))) in * by lia.
-    rewrite nth_error_snoc. rewrite Hnext. reflexivity.
+    subst pre. rewrite app_length. cbn [length]. replace (length (rev l) + 1)%nat with (S (length (rev l))) by lia.
+    cbn [mp4_prev_free]. rewrite nth_error_snoc. reflexivity.
 Qed.
 
 Inductive region_shape (ilst : mp4_atom) : list mp4_atom -> Prop :=
@@ -103,47 +106,57 @@ Lemma region_decomp f meta ke ilst moov udta start stop :
     mp4_region_of [moov; udta; meta; ilst] = Some (off, old) /\
     mp4_forest_ok f false A start off = true /\
     mp4_forest_ok f false R off (off + old) = true /\
-    mp4_forest_ok f false B (off + old) stop = true.
+    mp4_forest_ok f false B (off + old) stop = true /\
+    Forall (fun x => ma_name x <> N_ilst) A.
 Proof.
   intros Hk Hc Hf. destruct (child_split _ _ _ Hc) as (pre & post & -> & Hn & Hpre).
   unfold mp4_region_of. rewrite (find_padding_value _ _ _ _ Hk Hn Hpre).
   destruct (forest_ok_split _ _ _ _ _ _ _ Hf) as (F1 & F2 & F3).
   pose proof (atom_ok_len _ _ _ F2) as Hli.
-  (* the two ways the search continues after ilst *)
-  assert (Hafter : forall A0, mp4_forest_ok f false A0 start (ma_off ilst) = true -> pre = A0 ->
-     exists R B off old, post = post /\ A0 ++ ilst :: post = A0 ++ R ++ B /\ region_shape ilst R /\
-       match next_free_of post with
-       | Some fr => Some (Z.min (ma_off ilst) (ma_off fr), ma_len ilst + ma_len fr)
-       | None => Some (ma_off ilst, ma_len ilst) end = Some (off, old) /\
-       mp4_forest_ok f false A0 start off = true /\ mp4_forest_ok f false R off (off + old) = true /\
-       mp4_forest_ok f false B (off + old) stop = true).
-  { intros A0 HA0 _. unfold next_free_of. destruct post as [|q post'].
-    - exists [ilst], [], (ma_off ilst), (ma_len ilst). repeat split; auto. { constructor. }
+  unfold next_free_of. destruct post as [|q post'].
+  - (* nothing behind ilst: the atom before it, if free *)
+    unfold prev_free_of. destruct (rev pre) as [|p l] eqn:Er.
+    + exists pre, [ilst], [], (ma_off ilst), (ma_len ilst). repeat split; auto; try constructor.
       apply forest_ok_intro; auto. cbn. apply Z.eqb_refl.
-    - apply forest_ok_cons in F3. destruct F3 as (Eo & F3a & F3b). destruct (mp4_is_free q) eqn:Eq.
-      + exists [ilst; q], post', (ma_off ilst), (ma_len ilst + ma_len q). repeat split; auto.
-        * apply RS_next; exact Eq.
-        * f_equal. f_equal. lia.
-        * apply forest_ok_intro; auto. apply forest_ok_intro; auto. cbn. apply Z.eqb_eq. lia.
-        * replace (ma_off ilst + (ma_len ilst + ma_len q)) with (ma_off ilst + ma_len ilst + ma_len q) by lia. exact F3b.
-      + exists [ilst], (q :: post'), (ma_off ilst), (ma_len ilst). repeat split; auto. { constructor. }
-        * apply forest_ok_intro; auto. cbn. apply Z.eqb_refl.
-        * apply forest_ok_intro; auto. }
-  destruct (rev pre) as [|p l] eqn:Er.
-  - destruct (Hafter pre F1 eq_refl) as (R & B & off & old & _ & E & Hs & Hr & G1 & G2 & G3).
-    exists pre, R, B, off, old. repeat split; auto.
-  - assert (Ep : pre = rev l ++ [p]) by (rewrite <- (rev_involutive pre), Er; reflexivity).
-    destruct (mp4_is_free p) eqn:Efp.
-    + subst pre. apply forest_ok_app in F1. destruct F1 as (m & F1a & F1b).
-      apply forest_ok_cons in F1b. destruct F1b as (Eo & F1p & F1n). apply forest_ok_nil in F1n.
-      pose proof (atom_ok_len _ _ _ F1p) as Hlp.
-      exists (rev l), [p; ilst], post, (ma_off p), (ma_len ilst + ma_len p).
-      rewrite <- app_assoc. cbn [app]. repeat split; auto.
-      * apply RS_prev; exact Efp.
+    + assert (Ep : pre = rev l ++ [p]) by (rewrite <- (rev_involutive pre), Er; reflexivity).
+      destruct (mp4_is_free p) eqn:Efp.
+      * subst pre. apply forest_ok_app in F1. destruct F1 as (m & F1a & F1b).
+        apply forest_ok_cons in F1b. destruct F1b as (Eo & F1p & F1n). apply forest_ok_nil in F1n.
+        pose proof (atom_ok_len _ _ _ F1p) as Hlp. apply Forall_app in Hpre. destruct Hpre as (HpreA & _).
+        exists (rev l), [p; ilst], [], (ma_off p), (ma_len ilst + ma_len p).
+        rewrite <- app_assoc. cbn [app]. repeat split; auto.
+        -- apply RS_prev; exact Efp.
+        -- f_equal. f_equal. lia.
+        -- subst m. exact F1a.
+        -- apply forest_ok_intro; auto. apply forest_ok_intro; [lia|exact F2|]. cbn. apply Z.eqb_eq. lia.
+        -- replace (ma_off p + (ma_len ilst + ma_len p)) with (ma_off ilst + ma_len ilst) by lia. exact F3.
+      * exists pre, [ilst], [], (ma_off ilst), (ma_len ilst). repeat split; auto; try constructor.
+        apply forest_ok_intro; auto. cbn. apply Z.eqb_refl.
+  - apply forest_ok_cons in F3. destruct F3 as (Eo & F3a & F3b). destruct (mp4_is_free q) eqn:Eq.
+    + (* the free atom behind ilst wins *)
+      exists pre, [ilst; q], post', (ma_off ilst), (ma_len ilst + ma_len q). repeat split; auto.
+      * apply RS_next; exact Eq.
       * f_equal. f_equal. lia.
-      * subst m. exact F1a.
-      * apply forest_ok_intro; auto. apply forest_ok_intro; [lia|exact F2|]. cbn. apply Z.eqb_eq. lia.
-      * replace (ma_off p + (ma_len ilst + ma_len p)) with (ma_off ilst + ma_len ilst) by lia. exact F3.
-    + destruct (Hafter pre F1 eq_refl) as (R & B & off & old & _ & E & Hs & Hr & G1 & G2 & G3).
-      exists pre, R, B, off, old. repeat split; auto.
+      * apply forest_ok_intro; auto. apply forest_ok_intro; auto. cbn. apply Z.eqb_eq. lia.
+      * replace (ma_off ilst + (ma_len ilst + ma_len q)) with (ma_off ilst + ma_len ilst + ma_len q) by lia. exact F3b.
+    + unfold prev_free_of. destruct (rev pre) as [|p l] eqn:Er.
+      * exists pre, [ilst], (q :: post'), (ma_off ilst), (ma_len ilst). repeat split; auto; try constructor.
+        -- apply forest_ok_intro; auto. cbn. apply Z.eqb_refl.
+        -- apply forest_ok_intro; auto.
+      * assert (Ep : pre = rev l ++ [p]) by (rewrite <- (rev_involutive pre), Er; reflexivity).
+        destruct (mp4_is_free p) eqn:Efp.
+        -- subst pre. apply forest_ok_app in F1. destruct F1 as (m & F1a & F1b).
+           apply forest_ok_cons in F1b. destruct F1b as (Eo' & F1p & F1n). apply forest_ok_nil in F1n.
+           pose proof (atom_ok_len _ _ _ F1p) as Hlp. apply Forall_app in Hpre. destruct Hpre as (HpreA & _).
+           exists (rev l), [p; ilst], (q :: post'), (ma_off p), (ma_len ilst + ma_len p).
+           rewrite <- app_assoc. cbn [app]. repeat split; auto.
+           ++ apply RS_prev; exact Efp.
+           ++ f_equal. f_equal. lia.
+           ++ subst m. exact F1a.
+           ++ apply forest_ok_intro; auto. apply forest_ok_intro; [lia|exact F2|]. cbn. apply Z.eqb_eq. lia.
+           ++ replace (ma_off p + (ma_len ilst + ma_len p)) with (ma_off ilst + ma_len ilst) by lia.
+              apply forest_ok_intro; auto.
+        -- exists pre, [ilst], (q :: post'), (ma_off ilst), (ma_len ilst). repeat split; auto; try constructor.
+           ++ apply forest_ok_intro; auto. cbn. apply Z.eqb_refl.
+           ++ apply forest_ok_intro; auto.
 Qed.
